@@ -2,13 +2,13 @@
 # usage: tools/confirm_mutant.sh <seed-name> <property> <patch.diff> <demo_test.go> <notes.md> <checks...>
 # Confirms in a scratch worktree that the patch compiles, keeps the repository's tests green, and that the
 # demonstration fails with it and passes without it; then runs the named quick checks against /repo with the
-# patch applied (and reverted afterwards) and stores everything under /verif/seeded/<seed-name>/.
+# patch applied in the scratch worktree (VERIF_REPO) and stores everything under /verif/seeded/<seed-name>/.
 set -u
 NAME="$1"; PROP="$2"; PATCH="$3"; DEMO="$4"; NOTES="$5"; shift 5
 export GOFLAGS=-mod=mod GOPROXY=off GOSUMDB=off GOTOOLCHAIN=local
 WT=/tmp/wt/confirm-$$
 git -C /repo worktree add -q --detach "$WT" HEAD || exit 2
-cleanup() { git -C /repo worktree remove --force "$WT" 2>/dev/null; git -C /repo checkout -- . 2>/dev/null; }
+cleanup() { git -C /repo worktree remove --force "$WT" 2>/dev/null; }
 trap cleanup EXIT INT TERM
 cd "$WT" || exit 2
 DEMODIR=path
@@ -18,29 +18,27 @@ head -1 "$DEMO" | grep -q 'path/types' && DEMODIR=path/types
 head -1 "$DEMO" | grep -q 'path/ast' && DEMODIR=path/ast
 cp "$DEMO" "$DEMODIR/zz_seed_demo_test.go"
 DEMOPKG=./$DEMODIR/
-go test -vet=off -count=1 "$DEMOPKG" >/tmp/confirm-clean-$$.log 2>&1; clean_rc=$?
+RACE=""; sed -n 2p "$DEMO" | grep -q "race: yes" && RACE="-race"
+go test $RACE -vet=off -count=1 "$DEMOPKG" >/tmp/confirm-clean-$$.log 2>&1; clean_rc=$?
 rm -f "$DEMODIR/zz_seed_demo_test.go"
 git apply "$PATCH" || { echo "patch does not apply"; exit 2; }
 go build ./... || { echo "does not compile"; exit 2; }
 go test -vet=off -count=1 ./... >/tmp/confirm-suite-$$.log 2>&1; suite_rc=$?
 cp "$DEMO" "$DEMODIR/zz_seed_demo_test.go"
-go test -vet=off -count=1 "$DEMOPKG" >/tmp/confirm-mut-$$.log 2>&1; mut_rc=$?
+go test $RACE -vet=off -count=1 "$DEMOPKG" >/tmp/confirm-mut-$$.log 2>&1; mut_rc=$?
 rm -f "$DEMODIR/zz_seed_demo_test.go"
 echo "demo on clean tree: rc=$clean_rc (want 0); suite with patch: rc=$suite_rc (want 0); demo with patch: rc=$mut_rc (want !=0)"
 rm -f /tmp/confirm-*-$$.log
 if [ $clean_rc -ne 0 ] || [ $suite_rc -ne 0 ] || [ $mut_rc -eq 0 ]; then echo "NOT CONFIRMED"; exit 1; fi
 cd /verif
-git -C /repo diff --quiet || { echo "/repo not clean"; exit 2; }
-git -C /repo apply "$PATCH" || exit 2
-RESULTS=""
+# the checks run against the scratch worktree, which still has the patch applied (/repo is not touched)
 for id in "$@"; do
-  out=$(/verif/check "$id" quick 2>&1); rc=$?
+  out=$(VERIF_REPO="$WT" /verif/check "$id" quick 2>&1); rc=$?
   nv=$(echo "$out" | grep -c '^VIOLATION')
   first=$(echo "$out" | grep -A1 '^VIOLATION' | sed -n 2p | cut -c1-300)
   echo "  check $id: exit=$rc violations=$nv"
   printf '%s\t%s\t%s\t%s\n' "$id" "$rc" "$nv" "$first" >> "/tmp/confirm-results-$$.tsv"
 done
-git -C /repo checkout -- .
 mkdir -p "/verif/seeded/$NAME"
 cp "$PATCH" "/verif/seeded/$NAME/patch.diff"
 cp "$DEMO" "/verif/seeded/$NAME/demo_test.go"
